@@ -4,6 +4,15 @@ import json
 
 # id -> (technique, level text, level_note, design_ref)
 CLAIMED = {
+ "C10": ("exhaustive choice-tree enumeration (E1) of IDs and short lists through notation conversions, object parse/print and expansion vs string permutation and dyadic-box reference",
+         "Full products over zoom pairs x index classes (distinct components so swaps show) for parse/print/getters; all list shapes of length 0..3 for the notation round trips; all zoom differences |h-v| <= 4 for the expansion (duplicate-free, count, region).",
+         "Trusted: ref.Vox formatting and ref.ChangeZoom.", "4/C10"),
+ "C11": ("exhaustive choice-tree enumeration (E1): all tiles of zooms 1..5 (quick) / 1..7 (thorough), index classes at zooms up to 31, short lists x output zoom windows, vs bit-interleave and dyadic-box reference",
+         "Bijection and digit order decided on every tile of the small zooms and on boundary/alternating-bit classes above; round trip identity; zoom-changing conversion equals per-axis zoom change; no pair twice across groups; groups echo parameters; altitude-key form shares the horizontal part; spatial-ID wrappers.",
+         "Trusted: ref.Quadkey/FromQuadkey/ChangeZoom. Zoom differences above 3 and lists longer than 3 not covered.", "4/C11"),
+ "C12": ("exhaustive choice-tree enumeration (E1) of (zoom,zoom,exponent,index,offset) in both directions vs exact big-integer interval arithmetic; dense band for the mutual-consistency law",
+         "Every combination of the zoom alphabet cubed x index classes (incl. top, bottom, out-of-range) x 18 offsets is compared with the exact covering range and the metre-widened range, including the error rule; a dense band (zooms 22..28, all f in [-40,40], 38 offsets) additionally decides the two-direction consistency in the exact regime.",
+         "Trusted: ref.ZToAltKey/AltKeyToZ (big.Int shifts). Values outside the alphabets and band are not covered.", "4/C12"),
  "C05": ("exhaustive choice-tree enumeration (E1): all ordered pairs of voxels of each world and all pairs of short lists through both overlap implementations vs the ancestor-relation reference",
          "All ordered pairs of the 150-300 voxels of each world (root classes incl. f=-1|0 twin, top and bottom index, 2 levels of descendants per axis, parents) and all pairs of lists of length 0..3 are decided against ref.Overlap, for the extended checks and for the radix-tree checks inside the documented altitude range incl. zooms > 25.",
          "Trusted: ref.Overlap. Voxels outside the worlds and lists longer than 3 are not covered.", "4/C05"),
